@@ -78,6 +78,10 @@ def run(ctx, chk, only=None, prefix="ATOM"):
                             nm, "/".join(vs), at, after),
                         {"entry": entry, "refusal_variants": sorted(R) if R else "any", "variants": vs,
                          "mutation": after, "failing_step": at, "all_variants_returned": sorted(errv)})
+    if only is None:
+        # a refused rollback_before (first step) has no effect: nothing is snapshotted on the refusing path
+        from props.c16 import no_save_after_refusal
+        no_save_after_refusal(ctx, chk, "ATOM.rb")
     chk.cov["bodies_with_mutation_summary"] = sum(1 for b in P.bodies if A.MUTG[b] or A.MUTP[b])
     chk.cov["bodies_returning_errors"] = sum(1 for b in P.bodies if A.ERRV[b])
     chk.cov["summary_rounds"] = A.rounds
